@@ -1,3 +1,64 @@
-import PoorModel.Multipart
+import PoorProofs.Lemmas.Multipart
+/-
+C08 - multipart/form-data decodes to exactly the parts that were encoded.
+-/
 namespace Poor.Props.C08
+open Poor Poor.Multipart
+
+/-- **content extraction (in-memory reader).**  Let `nb = "--" ++ boundary` be a delimiter (printable,
+    no trailing blank, shorter than a line) that does not occur in the content `c` - which may hold
+    anything else: CR, LF, CRLF, dashes, prefixes of the delimiter, the boundary without its dashes,
+    NUL, 0xFF, and lines of any length (longer ones are read in 64 KiB pieces).  Then on
+    `c CRLF nb CRLF tail` the content loop returns exactly `c`, reports "another part follows" and
+    leaves the reader exactly at `tail`; on `c CRLF nb "--" CRLF tail` and on `c CRLF nb "--"` at
+    the very end of the input (no final CRLF) it returns `c` and reports the closing delimiter. -/
+theorem C08_extract (nb c tail mark eol : Bytes) (hb : BOk nb) (hno : ¬ nb <:+: c)
+    (hmark : mark = [] ∨ mark = [DASH, DASH]) (heol : eol = [CR, LF] ∨ (eol = [] ∧ tail = []))
+    (fuel : Nat) (hfuel : c.length + 2 < fuel) :
+    readLines lfReader nb (nb ++ [DASH, DASH]) fuel ⟨[], [], true⟩
+        (c ++ [CR, LF] ++ (nb ++ mark ++ eol ++ tail))
+      = (c, if mark = [] then Stop.next else Stop.last, tail) := by
+  refine extract_aux nb mark eol tail c hb hno hmark heol (c.length + 2) ⟨[], [], true⟩ []
+    (c ++ [CR, LF]) fuel (by simp) hfuel (by simp) (by simp) ?_ (by simp) (Or.inr (Or.inr (Or.inr rfl)))
+  intro h
+  simp at h
+
+/-- a delimiter made of an RFC 2046 boundary satisfies the hypotheses -/
+theorem BOk_of_boundary (ib : Bytes) (hne : ib ≠ []) (hlen : ib.length ≤ 70)
+    (hchars : ∀ x ∈ ib, 32 ≤ x.toNat ∧ x.toNat ≤ 126) (hlast : ib.getLast? ≠ some 32) :
+    BOk (DASH :: DASH :: ib) := by
+  refine ⟨rfl, ?_, ?_, ?_, ?_⟩
+  · refine ⟨DASH :: DASH :: ib.dropLast, ib.getLast hne, ?_, ?_⟩
+    · simp [List.dropLast_concat_getLast hne]
+    · have hmem := List.getLast_mem hne
+      have hr := hchars _ hmem
+      have hl : ib.getLast hne ≠ 32 := by
+        intro h; apply hlast; rw [List.getLast?_eq_some_getLast hne, h]
+      have hn : (ib.getLast hne).toNat ≠ 32 := fun h => hl (by
+        apply UInt8.toNat_inj.1; simpa using h)
+      simp only [isWs, Bool.or_eq_false_iff, decide_eq_false_iff_not]
+      refine ⟨⟨⟨⟨⟨hl, ?_⟩, ?_⟩, ?_⟩, ?_⟩, ?_⟩ <;> (intro h; rw [h] at hr; simp at hr)
+  · intro h
+    simp only [List.mem_cons] at h
+    rcases h with h | h | h
+    · simp [CR, DASH] at h
+    · simp [CR, DASH] at h
+    · have := hchars _ h; simp [CR] at this
+  · intro h
+    simp only [List.mem_cons] at h
+    rcases h with h | h | h
+    · simp [LF, DASH] at h
+    · simp [LF, DASH] at h
+    · have := hchars _ h; simp [LF] at this
+  · simp [LINE_CAP]; omega
+
+/-- non-vacuity: a content full of near-delimiters -/
+example :
+    readLines lfReader (DASH :: DASH :: [66]) (DASH :: DASH :: [66] ++ [DASH, DASH]) 40 ⟨[], [], true⟩
+      ([45, 45, 13, 10, 45, 66, 13, 13, 10, 10] ++ [CR, LF] ++ (DASH :: DASH :: [66] ++ [] ++ [CR, LF] ++ [120]))
+      = ([45, 45, 13, 10, 45, 66, 13, 13, 10, 10], Stop.next, [120]) := by
+  apply C08_extract (DASH :: DASH :: [66]) _ [120] [] [CR, LF]
+    (BOk_of_boundary [66] (by decide) (by decide) (by decide) (by decide)) (by decide) (Or.inl rfl) (Or.inl rfl)
+  decide
+
 end Poor.Props.C08
